@@ -90,7 +90,7 @@ func (s *c15state) genName(label string) string {
 	var n string
 	switch rapid.IntRange(0, 3).Draw(s.rt, label+"_k") {
 	case 0:
-		n = rapid.SampledFrom([]string{"", "Name", "Na\nme", "N: {y}", "caf\xe9 \xff", strings.Repeat("n", 200), "\nlead", "\ttab\nline", "\t\n", "\n", "\u2028x\ny", " sp\nline"}).Draw(s.rt, label)
+		n = rapid.SampledFrom([]string{"", "Name", "Na\nme", "N: {y}", "caf\xe9 \xff", strings.Repeat("n", 200), strings.Repeat("w", 300), strings.Repeat("W", 500), strings.Repeat("v", 2000), "\nlead", "\ttab\nline", "\t\n", "\n", "\u2028x\ny", " sp\nline"}).Draw(s.rt, label)
 	default:
 		n = string(genBytes(s.rt, label, rapid.IntRange(0, 24).Draw(s.rt, label+"_len")))
 	}
